@@ -262,5 +262,82 @@ def check_mset(tier, seed):
     return {"bound": "random row multisets, widths {1,2,3,66,70}", "evaluations": ev, "distinct_nontrivial": ev, "failures": fails, "samples": [{"cases": ev}], "exhaustive": False}
 
 
-CHECKS = [check_assemble_trace_functionals, check_call_trace_functionals, check_mset]
+def check_pedigree_trace_layout(tier, seed):
+    """call-pedigree: the trace the sampler returns stores, for every step and individual, the sorted alleles in the first
+    `ploidy` slots and -1 padding behind them (mixed ploidy: 4/4/3, 2/4/3, 6/6/2 ...), so that `individual(i)` and
+    every summary computed from it are functionals of the retained genotypes"""
+    from mchap.pedigree import mcmc as PM
+    from mchap.pedigree.classes import PedigreeAllelesMultiTrace
+
+    rng = np.random.default_rng(seed + 143)
+    ev = nontriv = 0
+    fails = []
+    haplotypes = np.array([[0, 0, 0, 0], [0, 0, 1, 1], [0, 1, 1, 0], [1, 1, 0, 1]], dtype=np.int8)
+    n_alleles, n_pos = haplotypes.shape
+    # (ploidies, parents, tau): founders then one progeny
+    peds = [
+        ((4, 4, 3), [[-1, -1], [-1, -1], [0, 1]], [[2, 2], [2, 2], [2, 1]]),
+        ((2, 4, 3), [[-1, -1], [-1, -1], [0, 1]], [[1, 1], [2, 2], [1, 2]]),
+        ((6, 6, 2), [[-1, -1], [-1, -1], [0, 1]], [[3, 3], [3, 3], [1, 1]]),
+        ((4, 2, 2), [[-1, -1], [-1, -1], [1, 1]], [[2, 2], [1, 1], [1, 1]]),
+    ]
+    if tier != "quick":
+        peds += [((6, 4, 5), [[-1, -1], [-1, -1], [0, 1]], [[3, 3], [2, 2], [3, 2]]), ((4, 4, 1), [[-1, -1], [-1, -1], [0, -1]], [[2, 2], [2, 2], [1, 0]])]
+    for ploidies, parents, tau in peds:
+        ns = len(ploidies)
+        mp_ = max(ploidies)
+        parents = np.array(parents, dtype=np.int64)
+        tau = np.array(tau, dtype=np.int64)
+        lam = np.zeros((ns, 2))
+        err = np.full((ns, 2), 0.05)
+        g0 = np.full((ns, mp_), -1, dtype=np.int64)
+        for i, pl in enumerate(ploidies):
+            g0[i, :pl] = np.sort(rng.integers(0, n_alleles, size=pl))
+        depth = 3
+        reads = np.full((ns, depth, n_pos, 2), 0.5)
+        for i in range(ns):
+            for r in range(depth):
+                h = haplotypes[int(rng.integers(0, n_alleles))]
+                for j in range(n_pos):
+                    reads[i, r, j, h[j]] = 0.9
+                    reads[i, r, j, 1 - h[j]] = 0.1
+        counts = np.ones((ns, depth), dtype=np.int64)
+        logf = np.log(np.full(n_alleles, 1.0 / n_alleles))
+        np.random.seed(int(seed) + 5)
+        PM.seed_numba(int(seed) + 5) if hasattr(PM, "seed_numba") else None
+        steps = 25 if tier == "quick" else 120
+        trace = PM.mcmc_sampler(g0, np.array(ploidies, dtype=np.int64), parents, tau, lam, err, reads, counts, haplotypes, logf, n_steps=steps, annealing=0, step_type=int(rng.integers(0, 2)), swap_parental_alleles=True)
+        ev += 1
+        nontriv += len(set(ploidies)) > 1
+        inp = {"ploidies": list(ploidies), "parents": parents.tolist(), "tau": tau.tolist(), "steps": steps}
+        ok = trace.shape == (steps, ns, mp_)
+        badrow = None
+        if ok:
+            for t in range(steps):
+                for i, pl in enumerate(ploidies):
+                    row = trace[t, i]
+                    if not (np.all(row[:pl] >= 0) and np.all(row[:pl] < n_alleles) and np.all(np.diff(row[:pl]) >= 0) and np.all(row[pl:] == -1)):
+                        ok = False
+                        badrow = {"step": t, "individual": i, "ploidy": pl, "row": row.tolist()}
+                        break
+                if not ok:
+                    break
+        if not ok:
+            if not any(f["key"] == "rt/pedigree_trace_row_layout" for f in fails):
+                fails.append({"key": "rt/pedigree_trace_row_layout", "check": "mchap.pedigree.mcmc.mcmc_sampler", "input": inp, "observed": badrow or list(trace.shape), "expected": "sorted alleles in the first `ploidy` slots, -1 behind"})
+            continue
+        mt = PedigreeAllelesMultiTrace(trace[None, ...], n_allele=n_alleles)
+        for i, pl in enumerate(ploidies):
+            ind = mt.individual(i)
+            kept = [tuple(int(x) for x in trace[t, i, :pl]) for t in range(steps)]
+            post = {k: v / steps for k, v in Counter(kept).items()}
+            pd = ind.posterior()
+            got = {tuple(int(x) for x in g): float(p) for g, p in zip(pd.genotypes, pd.probabilities)}
+            if ind.genotypes.shape[-1] != pl or set(got) != set(post) or any(abs(got[k] - post[k]) > 1e-12 for k in post):
+                if not any(f["key"] == "rt/pedigree_individual_posterior" for f in fails):
+                    fails.append({"key": "rt/pedigree_individual_posterior", "check": "mchap.pedigree.classes.PedigreeAllelesMultiTrace.individual", "input": dict(inp, individual=i), "observed": {str(k): v for k, v in got.items()}, "expected": {str(k): v for k, v in post.items()}})
+    return {"bound": "%d mixed-ploidy pedigrees x seeded reads x %s sampler steps" % (len(peds), "25" if tier == "quick" else "120"), "evaluations": ev, "distinct_nontrivial": int(nontriv), "failures": fails, "samples": [], "exhaustive": False}
+
+
+CHECKS = [check_assemble_trace_functionals, check_call_trace_functionals, check_mset, check_pedigree_trace_layout]
 REPLAY = {}
